@@ -130,6 +130,8 @@ var Mutants = map[string][]Mutant{
 		{"rasterizer ignores the fill rule", "renderers/rasterizer/rasterizer.go", `\t\tr\.scanner\.SetWinding\(style\.FillRule != canvas\.EvenOdd\)\n`, ``, "E6.style-field"},
 	},
 	"C15": {
+		{"DrawPath shares the style between its paths again", "canvas.go", `\t\tstyle := style // the stroke may be dropped for this path only\n`, "", "E11.draw-loop-state"},
+		{"checkDash takes the parity on the undoubled array", "path.go", `\ti, pos := dashStart\(offset, dd\)\n\tif length <= dd\[i\]-pos \{`, "\ti, pos := dashStart(offset, d)\n\tif length <= d[i]-pos {", "E11.dash-parity"},
 		{"Fit expands only non-empty bounds", "canvas.go", `\t\t\t\tbounds = l\.path\.Bounds\(\)\n\t\t\t\tif l\.style\.HasStroke\(\) \{`, "\t\t\t\tbounds = l.path.Bounds()\n\t\t\t\tif !bounds.Empty() && l.style.HasStroke() {", "E11.fit-stroke"},
 		{"Fit forgets the top side", "canvas.go", `\t\t\t\t\tbounds\.X1 \+= hw\n\t\t\t\t\tbounds\.Y1 \+= hw\n`, "\t\t\t\t\tbounds.X1 += hw\n", "E11.fit-stroke"},
 		{"SetDashes re-uses the saved backing array", "canvas.go", `c\.Style\.Dashes = dashes`, `c.Style.Dashes = append(c.Style.Dashes[:0], dashes...)`, "E1.ctx-setter-alias"},
